@@ -1,5 +1,5 @@
 // tr_c24tokens: regenerates, from the SOURCE of gomacro's go/etoken + go/parser and of $GOROOT/src/go/token + go/parser,
-// the tables the C24 (and C23) models rest on, as Coq definitions in <out>/GenTokens.v:
+// the tables the C24 (and C23) models rest on, as Coq definitions in <out>/GenC24a_Tokens.v (and copies PropsGen.v.tmpl to <out>/GenC24b_Props.v):
 //
 //	std_<NAME> : N                     numeric value of every go/token constant (iota counted in the const block)
 //	std_prec_table : list (N * Z)      token.Token.Precedence(): one row per token, from the switch in token.go
@@ -742,7 +742,16 @@ func main() {
 	}
 	check("Parse-loop", loop)
 
-	if err := os.WriteFile(filepath.Join(*out, "GenTokens.v"), []byte(sb.String()), 0o644); err != nil {
+	if err := os.WriteFile(filepath.Join(*out, "GenC24a_Tokens.v"), []byte(sb.String()), 0o644); err != nil {
+		fmt.Fprintln(os.Stderr, err)
+		os.Exit(2)
+	}
+	tmpl, err := os.ReadFile("PropsGen.v.tmpl")
+	if err != nil {
+		fmt.Fprintln(os.Stderr, err)
+		os.Exit(2)
+	}
+	if err := os.WriteFile(filepath.Join(*out, "GenC24b_Props.v"), tmpl, 0o644); err != nil {
 		fmt.Fprintln(os.Stderr, err)
 		os.Exit(2)
 	}
